@@ -62,7 +62,9 @@ def refs():
         _BREFS = boundary_refs()
     rnd = st.datetimes(min_value=dt.datetime(1950, 1, 1), max_value=dt.datetime(2090, 12, 31, 23, 59, 59)).map(lambda d: d.replace(microsecond=0))
     midnight = rnd.map(lambda d: d.replace(hour=0, minute=0, second=0))
-    return st.one_of(rnd, midnight, st.sampled_from(_BREFS), st.sampled_from(_BREFS)).map(lambda d: d.isoformat())
+    # a reference as datetime.now() delivers it carries microseconds
+    micro = st.builds(lambda d, us: d.replace(microsecond=us), st.one_of(rnd, st.sampled_from(_BREFS)), st.sampled_from([1, 999999, 123456, 500000]))
+    return st.one_of(rnd, midnight, st.sampled_from(_BREFS), st.sampled_from(_BREFS), micro).map(lambda d: d.isoformat())
 
 
 # ---- absolute date layouts -----------------------------------------------------------------------------------------------
